@@ -334,3 +334,109 @@ def translate():
 
 if __name__ == "__main__":
     print(gen_lean(read_shape()))
+
+
+# ----------------------------------------------------------------------------- operator overloads of ExpressionBase (expr.py)
+
+_OVERLOADS = ["__add__", "__sub__", "__mul__", "__truediv__", "__div__", "__pow__",
+              "__radd__", "__rsub__", "__rmul__", "__rtruediv__", "__rdiv__", "__rpow__", "__neg__"]
+_CLS = {"AddOperator": "add", "SubtractOperator": "sub", "MultiplyOperator": "mul", "DivideOperator": "div", "PowerOperator": "pow",
+        "NegationOperator": "neg"}
+_BINOP = {ast.Add: "add", ast.Sub: "sub", ast.Mult: "mul", ast.Div: "div", ast.Pow: "pow"}
+
+
+def _ret(node, meth):
+    """result of a `return` in an overload: ("self",) | ("num", k) | ("negself",) | ("helper", op) | ("reflect", op)"""
+    v = node.value
+    if isinstance(v, ast.Name) and v.id == "self":
+        return ("self",)
+    if isinstance(v, ast.Constant) and isinstance(v.value, (int, float)) and not isinstance(v.value, bool):
+        return ("num", Fraction(v.value))
+    if isinstance(v, ast.UnaryOp) and isinstance(v.op, ast.USub) and isinstance(v.operand, ast.Name) and v.operand.id == "self":
+        return ("negself",)
+    if isinstance(v, ast.Call) and isinstance(v.func, ast.Attribute) and isinstance(v.func.value, ast.Name) and v.func.value.id == "self":
+        if v.func.attr == "_binary_operation_helper" and len(v.args) == 2 and isinstance(v.args[0], ast.Name) and v.args[0].id == "other" \
+                and isinstance(v.args[1], ast.Name) and v.args[1].id in _CLS:
+            return ("helper", _CLS[v.args[1].id])
+        if v.func.attr == "_unary_operation_helper" and len(v.args) == 1 and isinstance(v.args[0], ast.Name) and v.args[0].id in _CLS:
+            return ("helper", _CLS[v.args[0].id])
+    if isinstance(v, ast.BinOp) and type(v.op) in _BINOP and isinstance(v.right, ast.Name) and v.right.id == "self" \
+            and isinstance(v.left, ast.Call) and isinstance(v.left.func, ast.Name) and v.left.func.id == "Float" \
+            and len(v.left.args) == 1 and isinstance(v.left.args[0], ast.Name) and v.left.args[0].id == "other":
+        return ("reflect", _BINOP[type(v.op)])
+    raise vlib.BrokenTie("expr.py: %s: return value not understood: %s" % (meth, ast.unparse(v)))
+
+
+def read_overloads():
+    tree = ast.parse(_read("wntr/sim/aml/expr.py"))
+    cls = [n for n in tree.body if isinstance(n, ast.ClassDef) and n.name == "ExpressionBase"]
+    if not cls:
+        raise vlib.BrokenTie("expr.py: class ExpressionBase not found")
+    out = []
+    for fn in cls[0].body:
+        if not isinstance(fn, ast.FunctionDef) or fn.name not in _OVERLOADS:
+            continue
+        body = [st for st in fn.body if not (isinstance(st, ast.Expr) and isinstance(st.value, ast.Constant))]
+        body = [st for st in body if not isinstance(st, ast.Assert)]   # `assert type(other) in native_numeric_types`
+        shortcuts, final = [], None
+
+        def test_const(t):
+            if isinstance(t, ast.Compare) and len(t.ops) == 1 and isinstance(t.ops[0], ast.Eq) and isinstance(t.left, ast.Name) \
+                    and t.left.id == "other" and isinstance(t.comparators[0], ast.Constant):
+                return Fraction(t.comparators[0].value)
+            raise vlib.BrokenTie("expr.py: %s: test not understood: %s" % (fn.name, ast.unparse(t)))
+
+        def branch(stmts):
+            if len(stmts) == 1 and isinstance(stmts[0], ast.Return):
+                return _ret(stmts[0], fn.name)
+            if len(stmts) == 1 and isinstance(stmts[0], ast.Raise):
+                return ("raise",)
+            raise vlib.BrokenTie("expr.py: %s: branch not understood: %s" % (fn.name, " ; ".join(ast.unparse(s) for s in stmts)))
+
+        for st in body:
+            if isinstance(st, ast.If):
+                cur = st
+                while True:
+                    shortcuts.append((test_const(cur.test), branch(cur.body)))
+                    if len(cur.orelse) == 1 and isinstance(cur.orelse[0], ast.If):
+                        cur = cur.orelse[0]
+                    elif not cur.orelse:
+                        break
+                    else:
+                        raise vlib.BrokenTie("expr.py: %s: `else:` branch in an overload" % fn.name)
+            elif isinstance(st, ast.Return) and final is None:
+                final = _ret(st, fn.name)
+            else:
+                raise vlib.BrokenTie("expr.py: %s: statement not understood: %s" % (fn.name, ast.unparse(st)))
+        if final is None:
+            raise vlib.BrokenTie("expr.py: %s has no final return" % fn.name)
+        out.append((fn.name, shortcuts, final))
+    missing = [m for m in _OVERLOADS if m not in [o[0] for o in out]]
+    if missing:
+        raise vlib.BrokenTie("expr.py: ExpressionBase lacks %s" % missing)
+    return out
+
+
+def _lean_res(r):
+    if r[0] == "num":
+        return "(.num %s)" % _rat(r[1])
+    if r[0] in ("helper", "reflect"):
+        return "(.%s \"%s\")" % (r[0], r[1])
+    return "." + {"self": "self", "negself": "negSelf", "raise": "raise"}[r[0]]
+
+
+def gen_overloads_lean(ov):
+    L = ["-- GENERATED by harness/props/c15_evalshape.py from wntr/sim/aml/expr.py (ast of ExpressionBase's operator overloads). Do not edit.",
+         "import WntrModel.Model.EvalShape", "namespace Wntr.Aml.Gen", "open Wntr.Aml", "",
+         "/-- per overload: the `if other == k: return …` shortcuts in source order, then the final return -/",
+         "def overloads : List OverloadShape := ["]
+    L.append(",\n".join('  { name := "%s", shortcuts := [%s], final := %s }' % (
+        n, ", ".join("(%s, %s)" % (_rat(k), _lean_res(r)) for k, r in sc), _lean_res(fin)) for n, sc, fin in ov))
+    L += ["]", "", "end Wntr.Aml.Gen", ""]
+    return "\n".join(L)
+
+
+def translate_overloads():
+    ov = read_overloads()
+    vlib.write_if_changed(os.path.join(vlib.GEN, "OverloadShape.lean"), gen_overloads_lean(ov))
+    return ov
